@@ -125,11 +125,22 @@ size_t sim_mkstemp_templates(char (*out)[256], size_t max)
 	return ntmpl;
 }
 
+static void log_template(const char *t)
+{
+	size_t slot = __atomic_fetch_add(&ntmpl, 1, __ATOMIC_RELAXED);
+	if (slot < 64) { size_t i = 0; for (; i < 255 && t[i]; i++) tmpl_log[slot][i] = t[i]; tmpl_log[slot][i] = 0; }	/* no libc call: TSan intercepts strncpy */
+}
 int sim_open(const char *path, int flags, ...)
 {
 	mode_t mode = 0;
-	if (flags & O_CREAT) { va_list ap; va_start(ap, flags); mode = va_arg(ap, mode_t); va_end(ap); }
+	if ((flags & O_CREAT) || (flags & O_TMPFILE) == O_TMPFILE) { va_list ap; va_start(ap, flags); mode = va_arg(ap, mode_t); va_end(ap); }
 	int fd = open(path, flags, mode);
+	if ((flags & O_TMPFILE) == O_TMPFILE) {
+		/* an unnamed temporary file in directory `path`: a spill file like one from mkstemp, with nothing to unlink */
+		log_template(path);
+		if (fd >= 0) { INC(mkstemps); INC(live_fds); }
+		return fd;
+	}
 	if (fd >= 0) { INC(opens); INC(live_fds); }
 	return fd;
 }
@@ -147,9 +158,15 @@ int sim_dup(int fd)
 }
 int sim_mkstemp(char *tmpl)
 {
-	size_t slot = __atomic_fetch_add(&ntmpl, 1, __ATOMIC_RELAXED);
-	if (slot < 64) { size_t i = 0; for (; i < 255 && tmpl[i]; i++) tmpl_log[slot][i] = tmpl[i]; tmpl_log[slot][i] = 0; }	/* no libc call: TSan intercepts strncpy */
+	log_template(tmpl);
 	int fd = mkstemp(tmpl);
+	if (fd >= 0) { INC(mkstemps); INC(live_fds); INC(live_tmp); }
+	return fd;
+}
+int sim_mkostemp(char *tmpl, int flags)
+{
+	log_template(tmpl);
+	int fd = mkostemp(tmpl, flags);
 	if (fd >= 0) { INC(mkstemps); INC(live_fds); INC(live_tmp); }
 	return fd;
 }
